@@ -15,6 +15,7 @@ package main
 
 import (
 	"fmt"
+	"os"
 	"sort"
 	"strings"
 )
@@ -345,26 +346,36 @@ func init() {
 			alpha := c13Alphabet()
 			idx := 0
 			exh := budget * 3 / 4
+			pairs, complete, skipped := 0, 0, 0
 			for _, setup := range c13Setups() {
 				for i := 0; i < len(alpha); i++ {
 					for j := i; j < len(alpha); j++ {
 						idx++
-						if idx%8 != shard%8 || emitted >= exh {
+						if idx%8 != shard%8 {
+							continue
+						}
+						pairs++
+						if emitted >= exh {
+							skipped++
 							continue
 						}
 						base := c13Post(setup, []c13Op{alpha[i], alpha[j]})
-						c13Exhaustive(base, 4000, func(s c13Scn, o c13Obs, m []Mon) bool {
+						_, done := c13Exhaustive(base, 4000, func(s c13Scn, o c13Obs, m []Mon) bool {
 							emit(s, o, m, "exh2")
 							return emitted < exh
 						})
+						if done {
+							complete++
+						}
 					}
 				}
 			}
+			fmt.Fprintf(os.Stderr, "c13: shard %d: %d of %d call pairs enumerated exhaustively (%d not reached), %d schedules\n", shard%8, complete, pairs, skipped, emitted)
 			rr := c.Rng.Fork()
 			for emitted < exh {
 				setup := Pick(rr, c13Setups())
 				base := c13Post(setup, []c13Op{Pick(rr, alpha), Pick(rr, alpha), Pick(rr, alpha)})
-				c13Exhaustive(base, 300, func(s c13Scn, o c13Obs, m []Mon) bool {
+				c13Exhaustive(base, 1000, func(s c13Scn, o c13Obs, m []Mon) bool {
 					emit(s, o, m, "exh3")
 					return emitted < exh
 				})
@@ -375,6 +386,17 @@ func init() {
 			done, obs, mons, _ := c13Run1(s)
 			emit(done, obs, mons, "")
 		}
+	})
+	// free-running scenarios for a binary built with -race (manual, supporting evidence only)
+	Register("C13race", func(c *Ctx) {
+		for i := 0; i < c.N; i++ {
+			s := c13GenRandom(c.Rng)
+			c13Norm(&s)
+			r := c13NewRun(s.Threads)
+			r.runFree()
+			r.cleanup(s.Names)
+		}
+		c.Emit(map[string]int{"scenarios": c.N}, map[string]int{}, nil, "free-running")
 	})
 	RegisterDump("C13", func() string {
 		// constants of the tree the theorems mention: the four watch types
